@@ -209,12 +209,14 @@ def gen_exclude_case(rng, n):
     names, globs = pools[rng.randrange(2)]
     # how the patterns reach Atlas: --exclude flags, the env block's `exclude = […]` list (2+ patterns, the last one
     # protecting a table that only the database has), the same behind a first pattern that matches nothing, or both
-    source = {1: "env", 5: "env", 3: "env-decoy", 7: "both"}.get(n % 8, "flag")
+    # "-ref": the states are named indirectly, `--to env://src` / `--to env://desired` (an attribute of the selected env); an
+    # excluded table that only the file declares then shows whether the patterns reach the state behind the variable
+    source = {1: "env", 2: "flag-ref", 5: "env-ref", 3: "env-decoy", 7: "both"}.get(n % 8, "flag")
     k = rng.randint(1, len(names))
-    if source != "flag":
+    if source not in ("flag", "flag-ref"):
         k = max(2, k)
     ex_names = rng.sample(names, k)
-    style = rng.choice(["literal", "glob", "selector"] if source == "flag" else ["literal", "selector"])
+    style = rng.choice(["literal", "glob", "selector"] if source in ("flag", "flag-ref") else ["literal", "selector"])
     if style == "glob":
         patterns = [rng.choice(globs)]
         ex_names = list(names) if rng.random() < 0.5 else ex_names  # the glob covers every name of the pool anyway
@@ -226,13 +228,16 @@ def gen_exclude_case(rng, n):
     ref_target = None
     for x in ex_names:
         placement[x] = rng.choice(["db", "want", "both_same", "both_diff"])
-    pickable = ex_names
-    if source != "flag":
+    pickable = list(ex_names)
+    if source not in ("flag", "flag-ref"):
         placement[ex_names[-1]] = "db"
-        pickable = ex_names[:-1]
+        pickable = pickable[:-1]
+    if source.endswith("-ref"):
+        placement[ex_names[0]] = "want"
+        pickable = pickable[1:]
     # a managed table references an excluded table that is present on both sides
     both = [x for x in ex_names if placement[x].startswith("both")]
-    if not both and rng.random() < 0.7:
+    if not both and pickable and rng.random() < 0.7:
         x = rng.choice(pickable)
         placement[x] = rng.choice(["both_same", "both_diff"])
         both = [x]
@@ -483,19 +488,24 @@ def project_file(case):
 
 
 def exclude_invocation(case):
-    """(atlas.hcl text or None, extra args for apply / inspect / diff) for the way the case supplies its patterns."""
+    """(atlas.hcl text or None, --exclude flags, use --env, --to value, --from value of `schema diff`) for the way the case supplies
+    its patterns and names its states."""
     import json
     src = case.get("source", "flag")
     flags = []
     for p in case["patterns"]:
         flags += ["--exclude", p]
     if src == "flag":
-        return None, flags, False
+        return None, flags, False, "file://want.hcl", "sqlite://x.db"
+    env = '  url = "sqlite://x.db"\n  src = "file://want.hcl"\n  desired = "file://want.hcl"\n  dev = "sqlite://dev?mode=memory"\n'
+    if src == "flag-ref":
+        return 'env "e" {\n%s}\n' % env, flags, True, "env://desired", "env://url"
     envp = case["patterns"]
     if src == "both":
         # flags win over the env list (maySetFlag: "not set by the user via the command line"); the env list is a prefix
         # of the flag list, so that the expectation also holds if both were merged
         envp = case["patterns"][:max(1, len(case["patterns"]) - 1)]
-    proj = ('env "e" {\n  url = "sqlite://x.db"\n  src = "file://want.hcl"\n  dev = "sqlite://dev?mode=memory"\n  exclude = [%s]\n}\n'
-            % ", ".join(json.dumps(p) for p in envp))
-    return proj, (flags if src == "both" else []), True
+    proj = 'env "e" {\n%s  exclude = [%s]\n}\n' % (env, ", ".join(json.dumps(p) for p in envp))
+    if src == "env-ref":
+        return proj, [], True, "env://src", "env://url"
+    return proj, (flags if src == "both" else []), True, None, "sqlite://x.db"
